@@ -269,6 +269,13 @@ class QueueingScenario(Scenario):
             seen.add(uid)
             if flag:
                 seen.discard(uid)     # the next event of this name is a re-creation
+        if self.params.get('reconnect_at') is not None:
+            # the server ends the watch (EOF, no error): the client resumes from the last version it has seen - nothing is replayed
+            def reconnect(e: Env) -> None:
+                for st in e.world.open_streams():
+                    e.stream_fault(st, 'eof')
+                e.log('reconnect')
+            items.append((float(self.params['reconnect_at']), 9_000, 'reconnect', reconnect))
         if self.cancel_at is not None:
             items.append((self.cancel_at, 10_000, 'cancel', lambda e: (e.log('cancel'), self.task.cancel())))
             if self.cancel2:
@@ -398,6 +405,11 @@ def scenarios(tier: str) -> list[QueueingScenario]:
     for d0, gap, d1 in itertools.product([0.25, 1.5], [0.0, 0.25, 1.0], [0.0, 0.25]):
         for nouid in (False, True):
             out.append(QueueingScenario(events=[(0.0, 'b', d0), (gap, 'b', d1), (gap + 0.25, 'a', 0.0)], limit=None, nouid=nouid, listed=True))
+    # the watch is ended by the server and resumed, with resource versions that gain a digit on the way (9 -> 10, 99 -> 100)
+    for rv0 in list(range(4, 10)) + list(range(93, 100)):
+        for rc in (0.75, 1.25):
+            out.append(QueueingScenario(events=[(0.0, 'a', 0.0), (0.25, 'a', 0.0), (0.5, 'b', 0.25), (0.75, 'a', 0.0), (1.0, 'b', 0.0), (1.75, 'a', 0.25), (2.0, 'b', 0.0)],
+                                        limit=None, rv0=rv0, reconnect_at=rc))
     # cancellation (single and double) while workers are busy / idle / waiting for a slot
     for evs in ([(0.0, 'a', 0.25), (0.0, 'a', 0.25)], [(0.0, 'a', 1.5), (0.25, 'b', 0.25), (0.25, 'a', 0.25)],
                 [(0.0, 'a', 1.5), (0.0, 'a', 1.5)], [(0.0, 'a', 0.25), (0.0, 'b', 1.5), (0.25, 'b', 0.25)]):
